@@ -6,6 +6,7 @@ import (
 	"os"
 	"runtime"
 	"runtime/debug"
+	"sync"
 
 	segment "github.com/blevesearch/scorch_segment_api/v2"
 
@@ -325,6 +326,10 @@ func c04(c *Ctx) {
 		if !c.Mine(i) {
 			continue
 		}
+		if ns := c.NShards; ns > 0 && (i/ns)%20 == 18 && !VecBuild {
+			// (the 19th, 39th, ... case of a worker: never inside the ramp below)
+			c04concurrent(c, i)
+		}
 		rng := c.Rng(i)
 		class := classFor(i, rng, tallEvery)
 		mode := modeFor(i, rng)
@@ -461,4 +466,98 @@ func c04(c *Ctx) {
 		c.Sample(map[string]interface{}{"case": id, "class": class, "mode": mode, "docs": len(b.Docs), "fields": m.Fields})
 		c.End()
 	}
+}
+
+// Several in-memory segments (different document counts and chunk modes) are emitted
+// at the same time, one goroutine each, as the persisters of several indexes of one
+// process do: every image is the one the segment emitted when it was alone.
+func c04concurrent(c *Ctx, i int) {
+	const G, rounds = 8, 1500
+	id := fmt.Sprintf("t%d", i)
+	if !c.Case(id, caseDesc{Class: "together", Docs: G}) {
+		return
+	}
+	defer c.End()
+	rng := c.Rng(i + 1<<24)
+	type one struct {
+		seg segment.Segment
+		img []byte
+	}
+	var segs []one
+	defer func() {
+		for _, s := range segs {
+			s.seg.Close()
+		}
+	}()
+	ok := true
+	guard(c.R, id, func() {
+		for g := 0; g < G; g++ {
+			b := histBatch(rng, []string{"small", "one", "fewfields", "small"}[g%4], fmt.Sprintf("t%d-", g))
+			mode := []uint32{1026, 1025, 1024, 3, 1026, 64, 1025, 1}[g]
+			zx.SetChunkMode(mode)
+			seg, _, err := zx.Build(b)
+			if err != nil {
+				c.R.Fail("build-err", "%s: %v", id, err)
+				ok = false
+				return
+			}
+			var buf bytes.Buffer
+			if _, err := writeTo(seg, &buf); err != nil {
+				c.R.Fail("writeto-err", "%s: WriteTo: %v", id, err)
+				ok = false
+			}
+			segs = append(segs, one{seg, buf.Bytes()})
+			checkFileFooter(c.R, id, buf.Bytes(), uint64(len(b.Docs)), mode)
+		}
+	})
+	if !ok || len(segs) != G {
+		return
+	}
+	type bad struct {
+		g, round int
+		how      string
+	}
+	bads := make([]*bad, G)
+	paths := make([]string, G)
+	for g := range paths {
+		paths[g] = c.Scratch.Path(fmt.Sprintf("c04t%d", g))
+	}
+	var wg sync.WaitGroup
+	for g := 0; g < G; g++ {
+		wg.Add(1)
+		go func(g int) {
+			defer wg.Done()
+			defer func() {
+				if r := recover(); r != nil && bads[g] == nil {
+					bads[g] = &bad{g, -1, fmt.Sprint("panic: ", r)}
+				}
+			}()
+			var buf bytes.Buffer
+			for r := 0; r < rounds && bads[g] == nil; r++ {
+				if r%100 == 99 {
+					if err := zx.Persist(segs[g].seg, paths[g]); err != nil {
+						bads[g] = &bad{g, r, "Persist: " + err.Error()}
+					} else if !bytes.Equal(readFile(paths[g]), segs[g].img) {
+						bads[g] = &bad{g, r, "the file written by Persist differs from the image the segment emitted alone"}
+					}
+					removeFile(paths[g])
+					continue
+				}
+				buf.Reset()
+				if _, err := writeTo(segs[g].seg, &buf); err != nil {
+					bads[g] = &bad{g, r, "WriteTo: " + err.Error()}
+				} else if !bytes.Equal(buf.Bytes(), segs[g].img) {
+					bads[g] = &bad{g, r, "the image written by WriteTo differs from the image the segment emitted alone"}
+				}
+			}
+		}(g)
+	}
+	wg.Wait()
+	for _, b := range bads {
+		if b != nil {
+			c.R.Fail("emitted-together", "%s: segment %d of %d emitted at the same time, round %d: %s", id, b.g, G, b.round, b.how)
+		}
+	}
+	c.R.Inc("images_emitted_while_others_were_emitting", int64(G*rounds))
+	c.R.Inc("rounds_of_simultaneous_emission", 1)
 }
